@@ -41,7 +41,9 @@ class Engine:
         "write phase, nproc 2-6, seeded start and merge order, forks taken from the parent as it is after the "
         "merges so far); an evaluation is one variant build compared with the reference; non-trivial = a "
         "parallel variant with >= 2 chunks or a read order different from sorted; distinct = distinct "
-        "(project digest, partition, event order) tuples as actually executed"
+        "(project digest, partition, event order) tuples as actually executed; a few runs instead sweep EVERY "
+        "partition of a four-document project into read chunks under two extreme merge orders (complete over that "
+        "finite space)"
     )
     assumptions = [
         "Sphinx workers are modelled as sequential isolated forks (exact for state in process memory; a race on "
@@ -79,8 +81,9 @@ class Engine:
         if g.random() < 0.7:
             cfg["heading_anchors"] = g.choice([1, 2, 3])
         cfg.pop("commonmark_only", None)
-        proj = gd.gen_project(g, n_docs=g.randint(3, 7), front_end="sphinx", cfg=cfg, with_inventory=False,
-                              n_blocks=g.choice([4, 6, 10]))
+        sweep = stream(seed_run, "sweep").random() < (0.12 if tier == "thorough" else 0.04)
+        proj = gd.gen_project(g, n_docs=3 if sweep else g.randint(3, 7), front_end="sphinx", cfg=cfg,
+                              with_inventory=False, n_blocks=g.choice([4, 6, 10]))
         files = proj["files"]
         docs = sorted(d + ".md" for d in proj["docs"]) + ["index.md"]
         # make sure the known cross-boundary constructs occur somewhere
@@ -115,6 +118,18 @@ class Engine:
             variants.append({"kind": "parallel", "nproc": nproc, "read_chunks": read_chunks,
                              "write_chunks": write_chunks,
                              "sched": [s.randrange(0, 7) for _ in range(4 * len(docnames) + 8)]})
+        if sweep:
+            # complete sweep: EVERY partition of the (four) documents into read chunks - "any assignment" - each
+            # under two extreme merge orders; complete over that finite space for this project
+            variants = [v for v in variants if v["kind"] == "shuffled"][:1]
+            for part in _set_partitions(docnames):
+                if len(part) < 2:
+                    continue
+                rc = {d: i for i, block in enumerate(part) for d in block}
+                for fill in (0, 5):
+                    variants.append({"kind": "parallel", "nproc": 2 + fill // 2, "read_chunks": rc,
+                                     "write_chunks": {d: 0 for d in docnames}, "sweep": True,
+                                     "sched": [fill] * (4 * len(docnames) + 8)})
         if tier == "thorough" and s.random() < 0.03:
             variants.append({"kind": "real_parallel", "nproc": s.randint(2, 4)})
         # incremental rebuilds: a full serial build, then edits, then a second build that reads only the
@@ -303,6 +318,9 @@ class Engine:
                                                   **{k.replace("fresh", "serial").replace("history", "variant"): v
                                                      for k, v in detail.items()}}})
                     break
+            if not violations and any(v.get("sweep") for v in plan["variants"]):
+                count("partition_sweeps_completed")
+                count("partition_sweep_schedules", sum(1 for v in plan["variants"] if v.get("sweep")))
             log.add("end", evals=evals, violations=len(violations))
         finally:
             clock.uninstall()
@@ -475,6 +493,26 @@ def _build(plan, root, var, tag):
         out["forks_after_merge"] = sched.forks_after_merge
         out["max_running"] = sched.max_running
         out["merges"] = sched.merges
+    return out
+
+
+def _set_partitions(items: list) -> list:
+    """All partitions of ``items`` into non-empty blocks (restricted growth strings), deterministic order."""
+    out = []
+
+    def rec(i, blocks):
+        if i == len(items):
+            out.append([list(b) for b in blocks])
+            return
+        for b in blocks:
+            b.append(items[i])
+            rec(i + 1, blocks)
+            b.pop()
+        blocks.append([items[i]])
+        rec(i + 1, blocks)
+        blocks.pop()
+
+    rec(0, [])
     return out
 
 
